@@ -61,7 +61,7 @@ type directVerdict struct {
 }
 
 // directEval runs checkAndNudgePoints on a copy of in and compares with the model.
-func directEval(w, h int, in []float64) directVerdict {
+func directEval(w, h int, in []float64, cache [2]map[float64]axisClass) directVerdict {
 	img, _ := gozxing.NewBitMatrix(w, h)
 	pts := append([]float64{}, in...)
 	var err error
@@ -72,15 +72,18 @@ func directEval(w, h int, in []float64) directVerdict {
 	}
 	anyBand := false
 	firstNF := -1
-	cls := make([]int, len(in))
 	pix := make([]int, len(in))
 	for i, f := range in {
 		ext := w
 		if i%2 == 1 {
 			ext = h
 		}
-		cl, p, _ := classify(rf(f), ext)
-		cls[i], pix[i] = cl, p
+		ac, hit := cache[i%2][f]
+		if !hit {
+			ac = classifyAxis(rf(f), ext)
+		}
+		cl, p := ac.cl, ac.pix
+		pix[i] = p
 		if cl != clIn {
 			v.out = append(v.out, i)
 		}
@@ -128,10 +131,10 @@ func coordSide(w, h int, in []float64, i int) string {
 }
 
 // checkDirect evaluates one input and reports a violation under a key that names the pass and side.
-func checkDirect(l *mc.Local, w, h int, in []float64) {
+func checkDirect(l *mc.Local, w, h int, in []float64, cache [2]map[float64]axisClass) {
 	l.Count("evaluations", 1)
 	n := len(in) / 2
-	v := directEval(w, h, in)
+	v := directEval(w, h, in, cache)
 	rc := rcase{Kind: "nudge-direct", W: w, H: h, Points: append([]float64{}, in...)}
 	where := func(i int) string { return passName(i/2, n) + "/" + coordSide(w, h, in, i) }
 	desc := fmt.Sprintf("checkAndNudgePoints(image %dx%d, %v): ", w, h, in)
@@ -149,28 +152,33 @@ func checkDirect(l *mc.Local, w, h int, in []float64) {
 		chk.Violation("C19/nudge/errkind", desc+v.what, rc)
 	case "notfound-expected":
 		chk.Violation("C19/nudge/notfound-expected/"+coordSide(w, h, in, v.coord), desc+v.what+" ("+passName(v.coord/2, n)+")", rc)
-	case "coord":
-		if coordSide(w, h, in, v.coord) == "inside" {
+	case "coord", "unexpected-error":
+		if v.verdict == "coord" && coordSide(w, h, in, v.coord) == "inside" {
 			chk.Violation("C19/nudge/inside-changed", desc+v.what, rc)
-		} else {
-			chk.Violation("C19/nudge/"+where(v.coord), desc+v.what, rc)
+			return
 		}
-	case "unexpected-error":
 		if len(v.out) == 1 {
 			chk.Violation("C19/nudge/"+where(v.out[0]), desc+v.what, rc)
 			return
 		}
-		// several coordinates are outside: find one that fails on its own
+		// several coordinates are outside the image (a nudged first point makes pass 1 go on to the
+		// next point): find one that fails on its own, the offending coordinate first
+		order := append([]int{}, v.out...)
+		if v.verdict == "coord" {
+			order = append([]int{v.coord}, v.out...)
+		}
 		var all []string
 		for _, i := range v.out {
 			all = append(all, where(i))
+		}
+		for _, i := range order {
 			red := append([]float64{}, in...)
 			for _, j := range v.out {
 				if j != i {
 					red[j] = insideValue([]int{w, h}[j%2])
 				}
 			}
-			if rv := directEval(w, h, red); rv.verdict != "" {
+			if rv := directEval(w, h, red, cache); rv.verdict != "" {
 				chk.Violation("C19/nudge/"+where(i), desc+v.what+" (also alone: "+fmt.Sprint(red)+")", rc)
 				return
 			}
@@ -202,6 +210,13 @@ func runNudgeDirect() {
 		func(l *mc.Local, i int) {
 			j := jobs[i]
 			lx, ly := lattice(j.w), lattice(j.h)
+			cache := [2]map[float64]axisClass{{}, {}}
+			for _, x := range lx {
+				cache[0][x] = classifyAxis(rf(x), j.w)
+			}
+			for _, y := range ly {
+				cache[1][y] = classifyAxis(rf(y), j.h)
+			}
 			base := make([]float64, 2*j.n)
 			for k := 0; k < j.n; k++ {
 				base[2*k], base[2*k+1] = insideValue(j.w), insideValue(j.h)
@@ -217,7 +232,7 @@ func runNudgeDirect() {
 					for _, x := range lx {
 						in := append([]float64{}, base...)
 						in[at], in[at+1] = x, y
-						checkDirect(l, j.w, j.h, in)
+						checkDirect(l, j.w, j.h, in, cache)
 					}
 				}
 			default:
@@ -227,7 +242,7 @@ func runNudgeDirect() {
 					for _, b := range ll {
 						in := append([]float64{}, base...)
 						in[fa], in[last+la] = a, b
-						checkDirect(l, j.w, j.h, in)
+						checkDirect(l, j.w, j.h, in, cache)
 					}
 				}
 			}
@@ -356,6 +371,18 @@ func reportSweep(imgs map[string]*gozxing.BitMatrix, kinds []string, m *gridMode
 	chk.Violation("C19/nudge/corner/"+strings.Join(sig, "+"), desc+" ["+f.verdict+"]", rc)
 }
 
+// sweepTable holds, for one (grid, image, orientation), the exact base sample points (translation
+// 0) and the class of every cell's x coordinate for every x translation k/8 of the lattice, and
+// likewise for y: the class of x depends on tx only and the class of y on ty only.
+type sweepTable struct {
+	to, from0 [8]float64
+	base      []pt
+	kxs, kys  []int
+	xc, yc    map[int][]axisClass
+}
+
+func transposing(d int) bool { return d == 1 || d == 3 || d == 4 || d == 7 }
+
 func runNudgeSample() {
 	type cfg struct {
 		w, h, dx, dy int
@@ -365,25 +392,60 @@ func runNudgeSample() {
 		cfgs = append(cfgs, cfg{32, 5, 1, 2}, cfg{32, 5, 2, 1}, cfg{6, 33, 3, 4})
 	}
 	kinds := []string{"ring", "hashA", "hashB"}
-	type job struct {
-		c  cfg
-		d  int
-		ky int
-	}
-	var jobs []job
-	span := func(ext, size int) (lo, hi int) { return -(ext + 3) * 8, (size + 3) * 8 }
-	for _, c := range cfgs {
-		for d := 0; d < 8; d++ {
-			ey := c.dy
-			if d == 1 || d == 3 || d == 4 || d == 7 {
-				ey = c.dx
+	// lattice of translations k/8: from 3 pixels outside on the low side to 3 pixels outside on the
+	// high side; k = 4 mod 8 would put the sample coordinates (half-integers + k/8) on integers
+	span := func(ext, size int) []int {
+		var ks []int
+		for k := -(ext + 3) * 8; k <= (size+3)*8; k++ {
+			if (k%8+8)%8 != 4 {
+				ks = append(ks, k)
 			}
-			lo, hi := span(ey, c.h)
-			for ky := lo; ky <= hi; ky++ {
-				if (ky%8+8)%8 != 4 {
-					jobs = append(jobs, job{c, d, ky})
+		}
+		return ks
+	}
+	tabs := make([]*sweepTable, len(cfgs)*8)
+	chk.Range("nudge sweep preparation: exact sample points and per-axis classes for every (grid, image, orientation, translation k/8)", len(tabs), nil,
+		func(l *mc.Local, i int) {
+			c, d := cfgs[i/8], i%8
+			t := &sweepTable{to: gridRect(c.dx, c.dy), from0: orientedQuad(d, 1, c.dx, c.dy, 0, 0), xc: map[int][]axisClass{}, yc: map[int][]axisClass{}}
+			ex, ok := solveProjective(quadF(t.to), quadF(t.from0))
+			if !ok {
+				panic("singular")
+			}
+			t.base = exactCells(ex, c.dx, c.dy)
+			exx, exy := c.dx, c.dy
+			if transposing(d) {
+				exx, exy = c.dy, c.dx
+			}
+			t.kxs, t.kys = span(exx, c.w), span(exy, c.h)
+			// translating the destination by (tx,ty) translates the map by (tx,ty)
+			for _, k := range t.kxs {
+				for _, b := range t.base {
+					ac := classifyAxis(radd(b.x, ri(int64(k), 8)), c.w)
+					if ac.near {
+						panic("nudge sweep: a sample coordinate is on a pixel boundary")
+					}
+					t.xc[k] = append(t.xc[k], ac)
 				}
 			}
+			for _, k := range t.kys {
+				for _, b := range t.base {
+					ac := classifyAxis(radd(b.y, ri(int64(k), 8)), c.h)
+					if ac.near {
+						panic("nudge sweep: a sample coordinate is on a pixel boundary")
+					}
+					t.yc[k] = append(t.yc[k], ac)
+				}
+			}
+			tabs[i] = t
+		})
+	type job struct {
+		tab, ky int
+	}
+	var jobs []job
+	for i, t := range tabs {
+		for _, ky := range t.kys {
+			jobs = append(jobs, job{i, ky})
 		}
 	}
 	var names []string
@@ -391,52 +453,31 @@ func runNudgeSample() {
 		names = append(names, fmt.Sprintf("%dx%d in %dx%d", c.dx, c.dy, c.w, c.h))
 	}
 	chk.Range("nudge, through SampleGrid and SampleGridWithTransform: (grid in image) {"+strings.Join(names, ", ")+"} x 8 orientations x every translation (tx,ty) on the 1/8-pixel lattice from 3 pixels outside on one side to 3 pixels outside on the other (lattice points that put sample coordinates on integers excluded) x images {ring, hashA, hashB}",
-		len(jobs), func(i int) string { return fmt.Sprint(jobs[i]) },
+		len(jobs), func(i int) string { return fmt.Sprint(cfgs[jobs[i].tab/8], orientNames[jobs[i].tab%8], jobs[i].ky) },
 		func(l *mc.Local, i int) {
 			j := jobs[i]
-			c := j.c
-			to := gridRect(c.dx, c.dy)
-			from0 := orientedQuad(j.d, 1, c.dx, c.dy, 0, 0)
-			ex, ok := solveProjective(quadF(to), quadF(from0))
-			if !ok {
-				panic("singular")
-			}
-			base := exactCells(ex, c.dx, c.dy)
+			c, d, t := cfgs[j.tab/8], j.tab%8, tabs[j.tab]
 			imgs := map[string]*gozxing.BitMatrix{}
 			for _, k := range kinds {
 				imgs[k] = makeImage(k, c.w, c.h)
 			}
-			exx := c.dx
-			if j.d == 1 || j.d == 3 || j.d == 4 || j.d == 7 {
-				exx = c.dy
-			}
-			lo, hi := span(exx, c.w)
 			ty := float64(j.ky) / 8
-			for kx := lo; kx <= hi; kx++ {
-				if (kx%8+8)%8 == 4 {
-					continue
-				}
+			for _, kx := range t.kxs {
 				tx := float64(kx) / 8
-				// translating the destination by (tx,ty) translates the map by (tx,ty)
-				rx, ry := ri(int64(kx), 8), ri(int64(j.ky), 8)
-				p := make([]pt, len(base))
-				for k := range base {
-					p[k] = pt{radd(base[k].x, rx), radd(base[k].y, ry)}
-				}
-				from := from0
+				from := t.from0
 				for k := 0; k < 4; k++ {
 					from[2*k] += tx
 					from[2*k+1] += ty
 				}
-				m := buildModel(p, c.dx, c.dy, c.w, c.h)
-				for _, cell := range m.cells {
-					if cell.nearB {
-						panic("nudge sweep: a sample coordinate is on a pixel boundary")
-					}
-				}
+				m := buildModelAxes(t.xc[kx], t.yc[j.ky], c.dx, c.dy, c.w, c.h)
 				sig := m.signature()
-				if f := sweepEval(l, imgs, kinds, m, to, from); f != nil {
-					reportSweep(imgs, kinds, m, to, from, p, f)
+				if f := sweepEval(l, imgs, kinds, m, t.to, from); f != nil {
+					rx, ry := ri(int64(kx), 8), ri(int64(j.ky), 8)
+					p := make([]pt, len(t.base))
+					for k := range t.base {
+						p[k] = pt{radd(t.base[k].x, rx), radd(t.base[k].y, ry)}
+					}
+					reportSweep(imgs, kinds, m, t.to, from, p, f)
 					continue
 				}
 				switch {
@@ -448,7 +489,7 @@ func runNudgeSample() {
 					l.Distinct("outcomes", "N ok "+strings.Join(sig, "+"))
 				}
 				if len(sig) > 0 {
-					l.Distinct("nontrivial", fmt.Sprint("N", c, j.d, kx, j.ky))
+					l.Distinct("nontrivial", fmt.Sprint("N", c, d, kx, j.ky))
 				}
 			}
 		})
@@ -482,9 +523,10 @@ func replay() {
 	case "sample":
 		sampleCase(l, c.DimX, c.DimY, xform{class: c.Class, member: "replay", to: c.Src, from: c.Dst}, &c)
 	case "nudge-direct":
-		v := directEval(c.W, c.H, c.Points)
+		var none [2]map[float64]axisClass
+		v := directEval(c.W, c.H, c.Points, none)
 		fmt.Printf("library vs model: verdict=%q %s\n", v.verdict, v.what)
-		checkDirect(l, c.W, c.H, c.Points)
+		checkDirect(l, c.W, c.H, c.Points, none)
 	case "nudge-sample":
 		ex, ok := solveProjective(quadF(c.Src), quadF(c.Dst))
 		if !ok {
